@@ -10,5 +10,5 @@ def run(ctx):
                   "thorough": "prefix x suffix product in all 30 keys"}[t]
     ctx.rule = ("TLC-enumerated cases (Gen_C08); distinct = distinct (operation, arguments); non-trivial = key other than C/a, or a prefix, or a suffix other than ''")
     ctx.nontrivial = lambda r: r["in"].get("k") not in (["C"], None) or r["in"].get("acc", 0) != 0 or "prog" in r["in"]
-    recs = ctx.execute("c08", cases)
+    recs = ctx.execute("c08", cases, orders=2)
     ctx.validate("Trace_C08", recs, driver="c08", shard=6000)
